@@ -14,6 +14,8 @@ ANCHORS = {
 }
 NAMES = ["a", "b", "c", "d", "e"]
 EXTRA = ["zz", "self", "kwargs", "args"]
+# parameter names that coincide with names used inside executorlib's own call path (call_funct, the worker scripts, submit)
+HOSTILE = ["fn", "funct", "memory", "input_dict", "args", "kwargs", "self", "function"]
 
 
 def make_fn(sig):
@@ -46,6 +48,8 @@ def classify_type_error(e: TypeError):
 def gen_case(rng):
     n = rng.choice([0, 1, 2, 2, 3, 3, 4, 5])
     names = NAMES[:n]
+    if rng.random() < 0.2:
+        names = rng.sample(HOSTILE, k=n)
     ndef = rng.randrange(0, n + 1)
     sig = [(nm, None if i < n - ndef else 100 + i) for i, nm in enumerate(names)]
     npos = rng.choice([0, 0, 1, 1, 2, 3, n, n + 1]) if rng.random() < 0.9 else rng.randrange(0, 7)
@@ -58,7 +62,7 @@ def gen_case(rng):
         p = 0.55 if (idx is not None and idx >= npos) else 0.06
         if r < p:
             kwargs.append([nm, 20 + len(kwargs)])
-    mempool = names + EXTRA
+    mempool = names + [x for x in EXTRA if x not in names]
     mode = rng.choice(["none", "empty", "partial", "partial", "full", "disjoint"])
     if mode == "none":
         mem = None
@@ -100,6 +104,10 @@ def canon(r):
 
 def _init_j4():
     return {"b": 4, "c": 3, "zz": 9}
+
+
+def _init_hostile():
+    return {"fn": 4, "memory": 3, "funct": 8, "input_dict": 1, "zz": 9}
 
 
 def body(ctx: Ctx):
@@ -171,21 +179,33 @@ def body(ctx: Ctx):
     # ---- executor level: init_function on real workers, presets persist over calls --------------
     import executorlib
 
-    n_exec = 3 if ctx.tier == "quick" else 12
+    n_exec = 4 if ctx.tier == "quick" else 12
     exec_cases = 0
     for k in range(n_exec):
-        sig = [("a", None), ("b", None), ("c", 102)]
+        hostile = k % 4 >= 2
+        if hostile:
+            # parameters named like the names executorlib uses on its own call path, presets for them
+            sig = [("a", None), ("fn", None), ("memory", 102), ("funct", 5)]
+            mem = [["fn", 4], ["memory", 3], ["funct", 8], ["input_dict", 1], ["zz", 9]]
+            init = _init_hostile
+            ctx.count("executor_with_hostile_parameter_names")
+        else:
+            sig = [("a", None), ("b", None), ("c", 102)]
+            mem = [["b", 4], ["c", 3], ["zz", 9]]
+            init = _init_j4
         fn, _ = make_fn(sig)
         calls = []
         for _ in range(5):
             npos = ctx.rng.choice([1, 1, 2, 3])
-            kw = [["c", 77]] if (npos < 3 and ctx.rng.random() < 0.4) else []
-            calls.append({"sig": sig, "args": [10 + i for i in range(npos)], "kwargs": kw, "mem": [["b", 4], ["c", 3], ["zz", 9]]})
+            last = sig[2][0]
+            kw = [[last, 77]] if (npos < 3 and ctx.rng.random() < 0.4) else []
+            calls.append({"sig": sig, "args": [10 + i for i in range(npos)], "kwargs": kw, "mem": mem})
 
         def go():
             out = []
-            with executorlib.Executor(max_workers=1, backend="local", block_allocation=True,
-                                      init_function=_init_j4, disable_dependencies=bool(k % 2)) as exe:
+            exe = executorlib.Executor(max_workers=1, backend="local", block_allocation=True,
+                                       init_function=init, disable_dependencies=bool(k % 2))
+            try:
                 pin = exe.submit(_where).result(timeout=60)
                 for c in calls:
                     f = exe.submit(fn, *c["args"], **dict(c["kwargs"]))
@@ -193,9 +213,15 @@ def body(ctx: Ctx):
                         out.append({"ok": [[kk, vv] for kk, vv in f.result(timeout=60).items()]})
                     except TypeError as e:
                         out.append(classify_type_error(e))
+                        break        # a failed call ends a block-allocation worker thread: nothing later would be answered
                     except Exception as e:  # noqa
                         out.append({"err": "other", "msg": repr(e)})
                         break
+            finally:
+                try:
+                    exe.shutdown(wait=False)
+                except Exception:  # noqa
+                    pass
             return pin, out
 
         st, val = call_with_timeout(go, 120)
